@@ -16,7 +16,10 @@ OPS = [
         ({ let b = buf_seq(old(data)); let ok = b.len() >= 2 && b.len() >= 2 + be16(b) as int;
            &&& r is Ok <==> ok
            &&& ok ==> (r->Ok_0)@ == lossy(b.skip(2).take(be16(b) as int)) && buf_seq(final(data)) == b.skip(2).skip(be16(b) as int)
-        }),'''},
+           &&& ok ==> utf8((r->Ok_0)@).len() <= 3 * 0xffff
+        }),''',
+     'proofs': [{'before': 'let s = String::from_utf8_lossy', 'optional': True,
+                 'text': 'proof { axiom_lossy_len(buf_seq(data).take(len as int)); }'}]},
     {'op': 'fn', 'path': 'IppValue::to_tag', 'ret': 'r',
      'attrs': ['#[verifier::exec_allows_no_decreases_clause]'],
      'spec': '    ensures r == spec_tag(aval(*self)),',
@@ -25,7 +28,8 @@ OPS = [
     {'op': 'fn', 'path': 'IppValue::parse', 'ret': 'r',
      'spec': '''    ensures
         r is Ok ==> is_scalar(r->Ok_0) && Some(aval_scalar(r->Ok_0)) == spec_val_dec(value_tag, buf_seq(&data)),
-        r is Err ==> spec_val_dec(value_tag, buf_seq(&data)) is None,''',
+        r is Err ==> spec_val_dec(value_tag, buf_seq(&data)) is None,
+        r is Ok ==> size_ok(aval(r->Ok_0)),''',
      'proofs': [{'before': 'let ipp_tag', 'text': 'proof { axiom_value_tag_from(value_tag as int); }'}]},
     {'op': 'fn', 'path': 'IppValue::to_bytes', 'ret': 'r',
      'attrs': ['#[verifier::exec_allows_no_decreases_clause]'],
